@@ -142,6 +142,7 @@ package httpcache
 //@   ensures result0 != nil && upstreamCalls == old(upstreamCalls) && result0 != old(stored.Data) ==> result0.StatusCode == 504 && statusIs(result0.Header, "BYPASS", false)   # name: synthesised-504-marked   props: C11
 //@   ensures result0 != nil && upstreamCalls != old(upstreamCalls) ==> (result0 == old(stored.Data) && (statusIs(result0.Header, "REVALIDATED", true) || statusIs(result0.Header, "STALE", true))) || (result0 != old(stored.Data) && (cstatus(result0.Header) == "MISS" || cstatus(result0.Header) == "BYPASS") && len(get(result0.Header, "X-Httpcache-Status")) == 1 && !has(result0.Header, "X-From-Cache"))   # name: validated-reply-marked   props: C11
 //@   ensures (result0 != nil) != (result1 != nil)                                        # name: result-shape   props: C10
+//@   ensures upstreamCalls != old(upstreamCalls) ==> validatedWithRealAge                # name: validation-judged-by-the-real-age   props: C11 C13 C02
 
 //@ spec func reqOIC(req *http.Request) bool = dirsHas(ccText(req.Header))["only-if-cached"]
 
@@ -183,6 +184,10 @@ package httpcache
 
 // finishValidation: the validation-response handler's contract in terms of its own parameters, plus the
 // write-back of a response freshened by a 304 (C08).
+// validatedWithRealAge: the freshness value handed to the last finishValidation carried the
+// stored response's real age (see realAge); the stale-if-error window and the Age field of a
+// response served after a failed validation are computed from it.
+//@ ghost var validatedWithRealAge bool
 //@ func (*transport).finishValidation
 //@   property C02 C13 C10 C06 C11 C08
 //@   requires wired(r) && req != nil && req.URL != nil && stored != nil && stored.Data != nil && stored.Data.Header != nil
@@ -203,7 +208,8 @@ package httpcache
 //@   let life = old(freshness.UsefulLife)
 //@   let ageIn = old(fAge(freshness, now))
 //@   let validated304 = err == nil && resp.StatusCode == 304
-//@   assigns storeWrites, lastSetOK, lastSetKey, lastRefs, bodyReadFailed, deletedKeys, lastStoredResp, lastStoredReqTime, lastStoredRespTime, lastStoredRefIndex, now, map(stored.Data.Header), map(resp.Header), resp.Body, stored.Data.Body
+//@   assigns storeWrites, lastSetOK, lastSetKey, lastRefs, bodyReadFailed, deletedKeys, lastStoredResp, lastStoredReqTime, validatedWithRealAge, lastStoredRespTime, lastStoredRefIndex, now, map(stored.Data.Header), map(resp.Header), resp.Body, stored.Data.Body
+//@   ensures validatedWithRealAge == old(realAge(freshness, stored))                               # ghost-update
 //@   ensures upstreamCalls == old(upstreamCalls)                                                   # name: no-upstream
 //@   ensures (result0 != nil) != (result1 != nil)                                                  # name: result-shape   props: C10
 //@   ensures result1 != nil ==> result1 == err                                                     # name: error-is-origin-error   props: C10
